@@ -990,18 +990,14 @@ func c07Exec(op []string) string {
 	hsAftermath = strings.HasSuffix(op[1], "+after") || strings.HasSuffix(op[1], "+afterlate")
 	hsAftermathLate = strings.HasSuffix(op[1], "+afterlate")
 	if hsAftermathLate {
-		// the class of the fault ends in the number of the reply that carries it ("kind2", "nonce1", …): the extra frame
-		// goes out right behind THAT reply, so the exchange itself ends as without it
-		cls := strings.SplitN(op[1], ":", 2)[0]
-		switch pre := strings.SplitN(cls, ".", 2)[0]; {
-		case pre == "resPQ":
-			hsBurstBehind = 1
-		case pre == "dhOk" || pre == "inner":
-			hsBurstBehind = 2
-		case pre == "dhGen":
-			hsBurstBehind = 3
-		case strings.HasPrefix(pre, "kind") && len(pre) == 5 && pre[4] >= '1' && pre[4] <= '3':
-			hsBurstBehind = int(pre[4] - '0')
+		// The extra frame goes out right behind the LAST reply the client takes before it gives the exchange up, so that
+		// the exchange itself ends exactly as without it: a first pass without any aftermath counts the client's requests
+		// (a fault in reply 1 may only be noticed at reply 2: resPQ.server_nonce)
+		hsAftermath, hsAftermathLate = false, false
+		dry := hsExchangePlan(&hsPlan{StoreMode: "notfound", D: &c.D, Pub: &c.Pub, Replies: c.R})
+		hsAftermath, hsAftermathLate = true, true
+		if n := c07Plain(dry); n >= 1 && n <= 3 && (strings.HasPrefix(dry.Outcome, "err:")) {
+			hsBurstBehind = n
 		}
 	}
 	// "+req" / "+retry": the application keeps using the object after the exchange was abandoned
@@ -1097,4 +1093,12 @@ func init() {
 		Exec:  c07Exec,
 		Judge: c07Judge,
 	})
+}
+
+// c07Plain: how many unencrypted requests the server of that run received
+func c07Plain(r *hsRun) int {
+	if r == nil || r.Srv == nil {
+		return 0
+	}
+	return len(r.Srv.Plain)
 }
